@@ -1,3 +1,4 @@
+mod backenddrv;
 mod chain;
 mod clouddrv;
 mod model;
@@ -56,6 +57,7 @@ fn main() {
             eprintln!("replayed {n} behaviours");
         }
         "cloud-replay" => clouddrv::main(&args),
+        "backend-replay" => backenddrv::main(&args),
         c if c.starts_with("task-") => taskdrv::main(&args),
         c if c.starts_with("storage-") || c.starts_with("sqlite-") => stordrv::main(&args),
         c if c.starts_with("seal-") => sealdrv::main(&args),
